@@ -119,7 +119,18 @@ def run(rep, tier, seed):
             # soundness: an expression and its own simplified form are equivalent by construction, so their truth
             # tables must agree
             b, kind = enc_expr(build_expr(a).simplify()), 'simplified'
-        elif r < 0.85:
+        elif r < 0.82:
+            # the same expression with the exception flag of one symbol occurrence flipped (a license and an exception of one
+            # key, a WITH pair and the pair over the same keys with another flag on one side, are different licenses)
+            paths = [p_ for p_ in algebra.nodes_paths(a) if algebra.get_at(a, p_)[0] == 0]
+            p_ = rng.choice(paths)
+            at = algebra.get_at(a, p_)[1]
+            import copy
+            at2 = copy.deepcopy(at)
+            part = at2[1] if at2[0] == 0 else rng.choice([at2[1], at2[2]])
+            part[1] = 1 - part[1]
+            b, kind = algebra.set_at(a, p_, [0, at2]), 'flag-variant'
+        elif r < 0.87:
             at = gen.gen_atom(rng, KEYS)
             if at[0] == 1:
                 a = [0, at]
